@@ -189,6 +189,36 @@ def run(rep: Report, tier: str):
                     if kind is None:
                         continue
                     mutators_found += 1
+                    # list.extend / += consume their argument item by item: an iterable that raises part-way leaves the
+                    # items delivered so far in the list, and the exception skips any reset that follows the statement
+                    if kind in ("call:extend", "aug-assign"):
+                        srcs = [c.args[0] for c, recv, meth in mutator_calls(stn) if meth == "extend" and c.args and _is_list_ref(recv, aliases)] if kind == "call:extend" else [stn.value]
+                        binds = {}
+                        for m_ in body_walk(f.node):
+                            if isinstance(m_, ast.Assign):
+                                for t_ in m_.targets:
+                                    if isinstance(t_, ast.Name):
+                                        binds.setdefault(t_.id, []).append(m_.value)
+
+                        def materialised(e, depth=0):
+                            if isinstance(e, (ast.List, ast.Tuple, ast.ListComp, ast.Constant)):
+                                return True
+                            if isinstance(e, ast.Call) and dotted(e.func) in ("list", "tuple", "sorted"):
+                                return True
+                            if isinstance(e, ast.Name) and e.id not in f.params() and e.id in binds and depth < 3:
+                                return all(materialised(b, depth + 1) for b in binds[e.id])
+                            return False
+
+                        in_finally = False
+                        for t_ in ast.walk(f.node):
+                            if isinstance(t_, ast.Try) and any(stn is y for b_ in t_.body for y in ast.walk(b_)):
+                                done_f: Set[str] = set()
+                                for fs_ in t_.finalbody:
+                                    done_f |= resets_in_stmt(fs_, c, repo)
+                                if set(caches) <= done_f:
+                                    in_finally = True
+                        if srcs and not all(materialised(e) for e in srcs) and not in_finally:
+                            rep.bad("C14.invalidate", f.qualname, f"{kind}:partial-on-exception", f"`{src(stn)}` consumes an arbitrary iterable item by item: if it raises part-way (a generator that fails, a lazily validated argument list) the opcodes delivered so far stay in the list while {', '.join('self.' + m for m in sorted(caches))} keep describing the old program - the reset after the statement is skipped by the exception. Materialise the argument first or reset in a `finally`", f.file, n.line)
                     if n.id not in pd:
                         # the mutation cannot reach a normal exit: nothing observable afterwards
                         rep.ok("C14.invalidate", f.qualname, f"{kind}: no normal exit after it", f"{f.file}:{n.line}")
